@@ -24,6 +24,7 @@ Abstract value            Python value fed to to_binary (variants)              
   blob                    A: bytes   B: bytearray                                   bytes
   uuid / timeuuid         uuid.UUID(bytes=...)                                      UUID
   inet                    A: str (socket.inet_ntop)   B: ipaddress object           str
+  inet {addr, text}       A: the given text (x:x:x:x:x:x:d.d.d.d / "::" forms)   B: ipaddress object      str (inet_ntop)
   list                    A: list   B: tuple                                        list
   set                     "seq": list in the given order (byte exactness); A: set/frozenset (sortedset when unhashable);
                           B: cassandra.util.sortedset                                sortedset (sorted)
@@ -186,6 +187,10 @@ def features(t, v, out=None):
     if is_scalar(t):
         if isinstance(v, dict) and v.get("aware"):
             out.add("aware-timestamp" if v["off"] else "aware-timestamp-utc")
+        if isinstance(v, dict) and "text" in v:
+            out.add("inet-mixed-text")
+        if k == "inet" and isinstance(v, list) and len(v) == 16 and "." in inet_text(v):
+            out.add("inet-canonical-text-with-dotted-quad")
         if k == "decimal" and isinstance(v, list) and v[0] in (-2147483648, 2147483647):
             out.add("decimal-scale-int32-limit")
         w = v[1] if k == "decimal" and isinstance(v, list) and len(v) == 2 else v
@@ -283,6 +288,8 @@ def py_scalar(drv, k, x, variant):
     if k in ("uuid", "timeuuid"):
         return uuid.UUID(bytes=bytes(x))
     if k == "inet":
+        if isinstance(x, dict):                  # an address named by text (Codec.tla InetReadings: the mixed x:x::d.d.d.d notation)
+            return bytes(x["text"]).decode("ascii") if variant == "A" else ipaddress.ip_address(bytes(x["addr"]))
         return inet_text(x) if variant == "A" else ipaddress.ip_address(bytes(x))
     raise ValueError(k)
 
@@ -640,9 +647,9 @@ def runs(quick):
     """(label, families) per TLC run"""
     if quick:
         return [("scalars, depth-1 composites, range errors, nesting to depth 3 (small alphabets)",
-                 ["scalar", "list", "set", "map", "tuple", "udt", "vector", "range", "tz", "wide", "nest2", "nest3"])]
-    return [("scalars (full boundary alphabets), lists, sets, range errors, timestamps as wall clock + UTC offset, wide integers",
-             ["scalar", "list", "set", "range", "tz", "wide"]),
+                 ["scalar", "list", "set", "map", "tuple", "udt", "vector", "range", "tz", "wide", "inettext", "nest2", "nest3"])]
+    return [("scalars (full boundary alphabets), lists, sets, range errors, timestamps as wall clock + UTC offset, wide integers, inet as mixed text",
+             ["scalar", "list", "set", "range", "tz", "wide", "inettext"]),
             ("maps", ["map"]),
             ("tuples, UDTs, vectors", ["tuple", "udt", "vector"]),
             ("nesting depth 2", ["nest2"]),
@@ -681,6 +688,8 @@ def enumerate_cases(ctx, tlc, module="Codec"):
                 s_["expect"] = "ok"
             elif s_["expect"] == "wraise":
                 s_["expect"] = "raise"
+        if "inettext" in fams and not any("inet-mixed-text" in features(s_["ty"], s_["val"]) for s_ in states if s_["expect"] == "ok"):
+            raise tlc.MachineryError("vacuity: action InetTextCase never taken in run %s" % label)
         if "tz" in fams and not any(isinstance(s["val"], dict) and "wall" in s["val"] for s in states if s["expect"] == "ok"):
             raise tlc.MachineryError("vacuity: action TzCase never taken in run %s" % label)
         for k, action in need.items():
